@@ -1,2 +1,79 @@
-import DuneVerif.Common.Proto
-def main : IO Unit := DV.runDriver fun _ => "bad-op"
+import DuneVerif.Model.C03
+/-! line-protocol driver for C03:  `<N> : op;op;…`  (ops as documented in harness/cxx_c03.cc).
+The chunk size `N` of the underlying ArrayList does not influence the abstract sequence (C11). -/
+open DV DV.C03
+
+def showPair (p : Pair) : String :=
+  s!"{p.g}:{p.l.loc}:{p.l.attr}:{if p.l.pub then 1 else 0}:{if p.l.valid then 1 else 0}"
+
+def showObs : Obs → String
+  | .ok => "ok"
+  | .none_ => "none"
+  | .skip => "skip"
+  | .ub => "UB"
+  | .err .invalidState => "ERR:InvalidState"
+  | .err .range => "ERR:Range"
+  | .bool b => if b then "true" else "false"
+  | .pair p => showPair p
+  | .nat n => toString n
+  | .state .ground => "G"
+  | .state .resize => "R"
+  | .dump l => showList (l.map showPair)
+  | .table t => s!"{t.length}:" ++ showList (t.map fun c => match c with | none => "-" | some p => showPair p)
+
+def parseOp (s : String) : Option Op :=
+  match tokens s with
+  | ["b"] => some .beginResize
+  | ["a", g, l, a, p] =>
+    match g.toInt?, l.toNat?, a.toNat?, p.toNat? with
+    | some g, some l, some a, some p => if a ≤ 3 ∧ p ≤ 1 then some (.add g l a (p == 1)) else none
+    | _, _, _, _ => none
+  | ["ag", g] => g.toInt?.map .addG
+  | ["d", g, a] =>
+    match g.toInt?, a.toInt? with
+    | some g, some a => if a < 0 then some (.markDel g 1000) else some (.markDel g a.toNat)
+    | _, _ => none
+  | ["e"] => some .endResize
+  | ["r"] => some .renumber
+  | ["x", g] => g.toInt?.map .exists_
+  | ["t", g] => g.toInt?.map .at_
+  | ["o", g] => g.toInt?.map .get
+  | ["w", g, l] =>
+    match g.toInt?, l.toNat? with
+    | some g, some l => some (.setLocal g l)
+    | _, _ => none
+  | ["s"] => some .seqNo
+  | ["z"] => some .size
+  | ["q"] => some .state
+  | ["p"] => some .dump
+  | ["L"] => some .lookup
+  | ["L", n] => n.toNat?.bind fun n => if n ≤ 100000 then some (.lookupN n) else none
+  | _ => none
+
+/-- run the ops one by one; a history that closes a resize phase with two equal (global, attribute) keys is outside
+the property's quantifier (the harness prints `outside` for it as well) -/
+def runOps : ISet → List Op → List String → Option (List String)
+  | _, [], acc => some acc.reverse
+  | s, op :: ops, acc =>
+    if op = .endResize ∧ closesOutside s then none
+    else
+      let (s', o) := step s op
+      runOps s' ops (showObs o :: acc)
+
+def handle (line : String) : String :=
+  match line.splitOn " :" with
+  | [hdr, rest] =>
+    match tokens hdr with
+    | [n] =>
+      if n ∉ ["1", "2", "3", "100"] then "bad-op" else
+      let segs := (rest.splitOn ";").filter fun s => tokens s ≠ []
+      match segs.mapM parseOp with
+      | none => "bad-op"
+      | some ops =>
+        match runOps init ops [] with
+        | none => "outside"
+        | some obs => ";".intercalate obs
+    | _ => "bad-op"
+  | _ => "bad-op"
+
+def main : IO Unit := runDriver handle
